@@ -6,6 +6,28 @@ from harness.props.c01 import C01
 class C05(RunProp):
     id = 'C05'
     rule = C01.rule
+    manifest = {
+        'text': 'Theorems (same Lean model of TestCase.run/RunTest and same quantifier as C01: all test programs, any nesting of cleanups and '
+                'fixtures, any exception kinds, decorators, handler tables, 7 result flavours, repeated runs), PARTIAL w.r.t. the known-finding '
+                'class lateCollision (a plain addDetail(n) replaced an entry stored under a generated/renamed name: holds_model_partial '
+                'assumes the class predicate is false, C05_finding_witness proves that the model violates the spec inside it): every name '
+                'attached by plain addDetail arrives with its last value, bytes read at reporting time (also inside the class); every '
+                'mismatch detail, failed-expectation marker and fixture detail (also of a fixture whose setUp failed) arrives exactly once '
+                'under its name or a -k renaming with the bytes due (fixture details: as read right before the cleanUp); the tracebacks among '
+                'the details are, as a multiset, exactly those of every non-exempt exception handed to the runner (MultipleExceptions '
+                'constituents, forced failure) plus the assertion behind expectFailure and the failure caught by @expectedFailure; detail '
+                'names are pairwise distinct; a skip reported by the own reporter carries the reason of a raised skip; every addOnException '
+                'handler is called once per exception, in order, before the outcome. addDetailUniqueName, gather_details and '
+                '_report_traceback are proved never to overwrite (rename loops find a free name; label loop by pigeonhole).',
+        'note': 'trusted: Lean kernel; hand-written model TTV/Model/RunTest.lean (incl. the ghost flag clobbered that defines the finding '
+                'class); harness/mrun.py (traceback text abstracted to exception identity, detail names split into base + numeric suffixes); '
+                'hypothesis wf: distinct stage ids, user handlers only for Exception subclasses, no user-supplied detail named "reason" (the '
+                'framework attaches its own by plain addDetail), content objects and failed expectations pairwise distinct (details are '
+                'identified by content), initial attribute names distinct; judged on flavours that receive the details dict',
+        'technique': 'Lean 4 invariant proofs over an executable model of the runner: details dict invariant with ghost accumulators carried '
+                     'along every primitive, induction principle for the well-founded cleanup loop, each-stage-at-most-once via a counting '
+                     'argument on the stage tree, finding class excluded by hypothesis plus a decide-checked witness, differential correspondence',
+    }
 
 
 PROP = C05()
